@@ -1,0 +1,55 @@
+//go:build verif
+
+package main
+
+import (
+	"errors"
+	"io"
+	"strings"
+
+	ebnflexer "github.com/gardenbed/emerge/internal/ebnf/lexer"
+)
+
+func init() {
+	register("lex", opLex)
+	register("advance_probe", opAdvanceProbe)
+}
+
+// opLex runs the EBNF scanner over a text and returns the token stream.
+func opLex(req request) response {
+	text := str(req, "text")
+	L, err := ebnflexer.New("f", strings.NewReader(text))
+	if err != nil {
+		if errors.Is(err, io.EOF) {
+			return response{"outcome": "ok", "tokens": [][]any{}, "end": "eof"}
+		}
+		return response{"outcome": "error", "error": err.Error(), "tokens": [][]any{}}
+	}
+	toks := [][]any{}
+	for {
+		tok, err := L.NextToken()
+		if err != nil {
+			if errors.Is(err, io.EOF) {
+				return response{"outcome": "ok", "tokens": toks, "end": "eof"}
+			}
+			return response{"outcome": "ok", "tokens": toks, "end": "error", "error": err.Error()}
+		}
+		toks = append(toks, []any{string(tok.Terminal), tok.Lexeme, tok.Pos.Offset, tok.Pos.Line, tok.Pos.Column})
+		if len(toks) > 1<<20 {
+			return response{"outcome": "error", "error": "too many tokens"}
+		}
+	}
+}
+
+// opAdvanceProbe evaluates the transition function on explicit (state, rune) pairs.
+func opAdvanceProbe(req request) response {
+	pairs, _ := req["pairs"].([]any)
+	next := make([]int, 0, len(pairs))
+	for _, p := range pairs {
+		pr, _ := p.([]any)
+		s, _ := pr[0].(float64)
+		r, _ := pr[1].(float64)
+		next = append(next, ebnflexer.VerifAdvanceDFA(int(s), rune(int(r))))
+	}
+	return response{"outcome": "ok", "next": next}
+}
